@@ -1373,6 +1373,129 @@ impl<'a> LL1Validator {
                 Self::check_regex(cst, sema, diags, regex, rule, sema.recursive.get(&rule));
             }
         }
+        // LL(1) conflicts reveal most left recursion; look for the rest only in a grammar that would
+        // otherwise be accepted
+        if !diags.iter().any(|d| d.severity == Severity::Error) {
+            Self::check_hidden_left_recursion(cst, sema, diags, file);
+        }
+    }
+
+    /// Collects the rule references that can be reached in `regex` without consuming a token.
+    fn leftmost_references(
+        cst: &Cst<'_>,
+        sema: &SemanticData<'a>,
+        regex: Regex,
+        refs: &mut Vec<(Name, RuleDecl)>,
+    ) {
+        match regex {
+            Regex::Name(name) => {
+                if let Some(rule) = sema
+                    .decl_bindings
+                    .get(&name.syntax())
+                    .and_then(|decl| RuleDecl::cast(cst, *decl))
+                {
+                    refs.push((name, rule));
+                }
+            }
+            Regex::Concat(concat) => {
+                for op in concat.operands(cst) {
+                    Self::leftmost_references(cst, sema, op, refs);
+                    let nullable = sema
+                        .first_sets
+                        .get(&op.syntax())
+                        .is_some_and(|first| first.contains(&TokenName::EPSILON));
+                    if !nullable {
+                        break;
+                    }
+                }
+            }
+            Regex::OrderedChoice(choice) => choice
+                .operands(cst)
+                .for_each(|op| Self::leftmost_references(cst, sema, op, refs)),
+            Regex::Alternation(alt) => alt
+                .operands(cst)
+                .for_each(|op| Self::leftmost_references(cst, sema, op, refs)),
+            Regex::Star(star) => {
+                if let Some(op) = star.operand(cst) {
+                    Self::leftmost_references(cst, sema, op, refs);
+                }
+            }
+            Regex::Plus(plus) => {
+                if let Some(op) = plus.operand(cst) {
+                    Self::leftmost_references(cst, sema, op, refs);
+                }
+            }
+            Regex::Optional(opt) => {
+                if let Some(op) = opt.operand(cst) {
+                    Self::leftmost_references(cst, sema, op, refs);
+                }
+            }
+            Regex::Paren(paren) => {
+                if let Some(inner) = paren.inner(cst) {
+                    Self::leftmost_references(cst, sema, inner, refs);
+                }
+            }
+            _ => {}
+        }
+    }
+
+    /// Left recursion that is not the direct form handled by operator precedence parsing makes
+    /// the parser call a rule again without having consumed a token. LL(1) conflicts reveal most
+    /// of it, but not when it hides behind an ordered choice or a predicate.
+    fn check_hidden_left_recursion(
+        cst: &Cst<'_>,
+        sema: &SemanticData<'a>,
+        diags: &mut Vec<Diagnostic>,
+        file: File,
+    ) {
+        let mut edges: BTreeMap<RuleDecl, Vec<(Name, RuleDecl)>> = BTreeMap::new();
+        for rule in file.rule_decls(cst) {
+            let Some(regex) = rule.regex(cst) else {
+                continue;
+            };
+            let mut refs = vec![];
+            Self::leftmost_references(cst, sema, regex, &mut refs);
+            // the left operands of left recursive branches are handled by the generated loop
+            let handled: Vec<NodeRef> = sema.recursive.get(&rule).map_or(vec![], |recursive| {
+                recursive
+                    .branches()
+                    .iter()
+                    .filter_map(|branch| match branch {
+                        Recursion::Left(Regex::Concat(concat), index)
+                        | Recursion::LeftRight(Regex::Concat(concat), index, _) => {
+                            concat.operands(cst).nth(*index).map(|op| op.syntax())
+                        }
+                        _ => None,
+                    })
+                    .collect()
+            });
+            refs.retain(|(name, _)| !handled.contains(&name.syntax()));
+            edges.insert(rule, refs);
+        }
+        fn reaches(
+            edges: &BTreeMap<RuleDecl, Vec<(Name, RuleDecl)>>,
+            from: RuleDecl,
+            to: RuleDecl,
+        ) -> bool {
+            let mut seen = BTreeSet::new();
+            let mut stack = vec![from];
+            while let Some(current) = stack.pop() {
+                if current == to {
+                    return true;
+                }
+                if seen.insert(current) {
+                    stack.extend(edges.get(&current).into_iter().flatten().map(|(_, t)| *t));
+                }
+            }
+            false
+        }
+        for (rule, refs) in edges.iter() {
+            for (name, target) in refs {
+                if reaches(&edges, *target, *rule) {
+                    diags.push(Diagnostic::consume_tokens(&name.span(cst)));
+                }
+            }
+        }
     }
 
     fn has_predicate(cst: &Cst<'_>, regex: Regex) -> bool {
